@@ -628,15 +628,25 @@ class TOC(object):
 
     @classmethod
     def read(cls, storage, indexname, gen=None, schema=None):
+        stream = None
         if gen is None:
-            gen = cls._latest_generation(storage, indexname)
-            if gen < 0:
-                raise EmptyIndexError("Index %r does not exist in %r"
-                                      % (indexname, storage))
+            # A commit in another process can replace the newest TOC between
+            # listing the directory and opening the file: look again
+            for _ in range(10):
+                gen = cls._latest_generation(storage, indexname)
+                if gen < 0:
+                    raise EmptyIndexError("Index %r does not exist in %r"
+                                          % (indexname, storage))
+                try:
+                    stream = storage.open_file(cls._filename(indexname, gen))
+                    break
+                except (IOError, NameError):
+                    continue
 
         # Read the content of this index from the .toc file.
         tocfilename = cls._filename(indexname, gen)
-        stream = storage.open_file(tocfilename)
+        if stream is None:
+            stream = storage.open_file(tocfilename)
 
         def check_size(name, target):
             sz = stream.read_varint()
